@@ -32,6 +32,9 @@ DT = {
     # string cells that contain every delimiter character, blanks and NULs (fixed-width strings may): a text
     # reader that SKIPS this column must still skip exactly its width
     "hostile": [("a", "<i4"), ("x", "<f8", (2,)), ("s", "S5"), ("h", "<i2")],
+    # very long text rows (a 70x70 sub-array: about 40 kB per row): readers that skip rows with a fixed-size
+    # line buffer break only beyond that size
+    "long": [("a", "<i4"), ("x", "<f8", (70, 70)), ("s", "S3"), ("h", "<i2")],
 }
 HOSTILE = [b"a,b:c", b"x\ty z", b"q,,,,", b"r::\t ", b"k , :", b"ab"]
 
@@ -324,6 +327,11 @@ def main(ctx):
                 if rsel is not None and rsel[0] == "slice" and not st["slices"]:
                     continue
                 yield (tid, n, delim, style, rsel, csel)
+
+    # the long-row table: text only, three access styles, every row selection
+    LONG_STYLES = ["R.read", "SF[]", "sfile.read"]
+    lunits = [("long", 3, delim, style) for delim in ctx.pick([","], [",", " ", "\t"]) for style in LONG_STYLES]
+    ctx.lattice("long-rows", lunits, one, expand=expand, bounds=dict(row_bytes="about 40 kB", styles=LONG_STYLES))
 
     ctx.lattice("subsets", units, one, expand=expand,
                 bounds=dict(tables=tids, nrows=ns, delims=[repr(d) for d in delims], max_rowlist_len=L,
